@@ -80,6 +80,7 @@ func normalise(t *model.Tree) *model.Tree {
 
 func histRun(env *sess.Env, sc *histScenario, cfg histCfg) histResult {
 	res := histResult{log: kit.NewLog(120), stats: kit.Counter{}}
+	skey := store.KeyName(sc.Store) // store kind as it appears in finding keys (hook mask dropped)
 	add := func(op int, oracle, key, detail string) {
 		res.findings = append(res.findings, histFinding{key: key, oracle: oracle, detail: fmt.Sprintf("op %d (%s): %s", op, sc.Ops[op].String(), detail), op: op})
 	}
@@ -153,12 +154,12 @@ func histRun(env *sess.Env, sc *histScenario, cfg histCfg) histResult {
 				res.stats.Inc("dont-care:empty list as entry point")
 				continue
 			}
-			add(i, "find", "entry-point-not-found:"+sc.Store, "the entry point exists in the model but Find returned no selection")
+			add(i, "find", "entry-point-not-found:"+skey, "the entry point exists in the model but Find returned no selection")
 			continue
 		}
 		walked, werr := st.Walk()
 		if werr != nil {
-			add(i, "garbage", "store-holds-garbage:"+sc.Store, "after the operation the store's Go value is not a well-formed tree: "+werr.Error())
+			add(i, "garbage", "store-holds-garbage:"+skey, "after the operation the store's Go value is not a well-formed tree: "+werr.Error())
 			return res
 		}
 		got := normalise(walked)
@@ -177,10 +178,10 @@ func histRun(env *sess.Env, sc *histScenario, cfg histCfg) histResult {
 			// half-made entries (key leaf never written) belong to the operation's footprint
 			outside := model.Diff(normalise(before.Without(op.At)), normalise(completeEntries(walked).Without(op.At)), true)
 			if len(op.At) > 0 && outside != "" {
-				add(i, "footprint", "faulted-op-changed-data-outside-its-footprint:"+sc.Store+":"+kindKey, "a failed operation changed data outside the subtree it addresses: "+outside)
+				add(i, "footprint", "faulted-op-changed-data-outside-its-footprint:"+skey+":"+kindKey, "a failed operation changed data outside the subtree it addresses: "+outside)
 			}
 			if d := model.OldOrNew(got, normalise(before), normalise(want), ""); d != "" && out.Err == model.OK {
-				add(i, "old-or-new", "faulted-op-left-neither-old-nor-new:"+sc.Store+":"+kindKey, d)
+				add(i, "old-or-new", "faulted-op-left-neither-old-nor-new:"+skey+":"+kindKey, d)
 			}
 			// A failing Choose of the TARGET is the documented fall-through of the
 			// editor (it proceeds without clearing; C12's known finding): the
@@ -188,12 +189,12 @@ func histRun(env *sess.Env, sc *histScenario, cfg histCfg) histResult {
 			targetChoose := ss.Fired[0].Call == "Choose" && ss.Fired[0].Side == "T"
 			if cfg.checkCases && !targetChoose {
 				if d := got.TwoCases(); d != "" {
-					add(i, "one-case", "two-cases-after-failed-edit:"+sc.Store, d+" (after a callback of the edit failed)")
+					add(i, "one-case", "two-cases-after-failed-edit:"+skey, d+" (after a callback of the edit failed)")
 				}
 			}
 			if cfg.checkKeys {
 				if d := completeEntries(walked).DupKeys(); d != "" {
-					add(i, "unique-keys", "duplicate-keys-after-failed-edit:"+sc.Store, d)
+					add(i, "unique-keys", "duplicate-keys-after-failed-edit:"+skey, d)
 				}
 			}
 			// The history ends here: what a later operation does with a half-made
@@ -205,18 +206,18 @@ func histRun(env *sess.Env, sc *histScenario, cfg histCfg) histResult {
 		// invariants first: they hold whatever else this operation got wrong
 		if cfg.checkCases {
 			if d := got.TwoCases(); d != "" {
-				add(i, "one-case", "two-cases:"+sc.Store, d)
+				add(i, "one-case", "two-cases:"+skey, d)
 			}
 		}
 		if cfg.checkKeys {
 			if d := walked.DupKeys(); d != "" {
-				add(i, "unique-keys", "duplicate-keys:"+sc.Store, d)
+				add(i, "unique-keys", "duplicate-keys:"+skey, d)
 			}
 		}
 		class := r.Class()
 		switch {
 		case out.Err == model.OK && r.Err != nil:
-			add(i, "error-class", fmt.Sprintf("unexpected-error:%s:%s", sc.Store, kindKey), fmt.Sprintf("the statement predicts success, the call returned %v", r.Err))
+			add(i, "error-class", fmt.Sprintf("unexpected-error:%s:%s", skey, kindKey), fmt.Sprintf("the statement predicts success, the call returned %v", r.Err))
 			cur = walked
 			continue
 		case out.Err != model.OK && r.Err == nil:
@@ -239,7 +240,7 @@ func histRun(env *sess.Env, sc *histScenario, cfg histCfg) histResult {
 			// a failed edit is not transactional; outside its footprint nothing may change
 			if len(op.At) > 0 {
 				if d := model.Diff(normalise(before.Without(op.At)), normalise(walked.Without(op.At)), true); d != "" {
-					add(i, "footprint", "failed-op-changed-data-outside-its-footprint:"+sc.Store+":"+kindKey, d)
+					add(i, "footprint", "failed-op-changed-data-outside-its-footprint:"+skey+":"+kindKey, d)
 				}
 			}
 			res.stats.Inc("predicted-failure:" + out.Err.String())
@@ -257,7 +258,7 @@ func histRun(env *sess.Env, sc *histScenario, cfg histCfg) histResult {
 			if len(op.At) > 0 && model.Diff(normalise(before.Without(op.At)), normalise(walked.Without(op.At)), true) != "" {
 				what = "outside-footprint"
 			}
-			add(i, "store-equals-model", fmt.Sprintf("store-differs-from-model:%s:%s:%s", sc.Store, kindKey, what), fmt.Sprintf("store (walked directly) differs from the model at %s\n   model: %s\n   store: %s", d, exp.String(), got.String()))
+			add(i, "store-equals-model", fmt.Sprintf("store-differs-from-model:%s:%s:%s", skey, kindKey, what), fmt.Sprintf("store (walked directly) differs from the model at %s\n   model: %s\n   store: %s", d, exp.String(), got.String()))
 			cur = walked
 			continue
 		}
@@ -268,12 +269,12 @@ func histRun(env *sess.Env, sc *histScenario, cfg histCfg) histResult {
 
 		if cfg.checkKeys {
 			if d := findAll(env, st, walked, before); d != "" {
-				add(i, "find-by-key", "find-by-key:"+sc.Store, d)
+				add(i, "find-by-key", "find-by-key:"+skey, d)
 			}
 		}
 		// reading through the library reports exactly what is there
 		if exp2, err := sess.Export(env, st); err != nil {
-			add(i, "export", "export-failed:"+sc.Store, "export of the store failed: "+err.Error())
+			add(i, "export", "export-failed:"+skey, "export of the store failed: "+err.Error())
 		} else {
 			e2 := normalise(exp2)
 			g2 := got
@@ -281,7 +282,7 @@ func histRun(env *sess.Env, sc *histScenario, cfg histCfg) histResult {
 			// field cannot be unset
 			e2 = dropZeroLeaves(e2, g2, st.ZeroIsUnset())
 			if d := model.Diff(g2, e2, sets); d != "" {
-				add(i, "export-equals-store", "export-differs-from-store:"+sc.Store, fmt.Sprintf("the tree exported through the library differs from the store content at %s", d))
+				add(i, "export-equals-store", "export-differs-from-store:"+skey, fmt.Sprintf("the tree exported through the library differs from the store content at %s", d))
 			}
 		}
 	}
@@ -582,7 +583,7 @@ func histCheck(prop string, cfg histCfg, gen histGen, faultShare int, rule strin
 		out.Steps += res.steps
 		out.Stats.Merge(res.stats)
 		out.Stats.Inc("histories:fault-free")
-		out.Stats.Inc("store:" + sc.Store)
+		out.Stats.Inc("store:" + store.KeyName(sc.Store))
 		out.Stats.Add("operations", len(sc.Ops))
 		for _, f := range res.findings {
 			if f.key == "harness" {
